@@ -17,6 +17,7 @@ from black_it.loss_functions.msm import MethodOfMomentsLoss
 from harness.common import Case, f
 from harness.losses import per_series_filter, reducing_filter, AckFun, cells_unchanged, ident_cells, loss_world
 from symx.core import Sym, is_sym, lift
+from symx.core import reraise_if_harness  # noqa: E402
 
 LEVEL = "other"
 FUNCTIONS = [
@@ -148,6 +149,7 @@ def replay_weighted(D, E, N, wmode, fmode, v):
         got = loss.compute_loss(sim, real)
         got2 = loss.compute_loss(sim, real)
     except Exception as e:  # noqa: BLE001
+        reraise_if_harness(e)
         return True, f"compute_loss raised {type(e).__name__}: {e}"
     ww = [1.0 / D] * D if w is None else list(w)
     exp = 0.0
@@ -287,6 +289,7 @@ def case_ens_perm(kind, E, N, D):
                 if not _close(again, base) and not (np.isnan(again) and np.isnan(base)):
                     return True, f"{kind}: second evaluation {again!r} vs first {base!r}"
             except Exception as e:  # noqa: BLE001
+                reraise_if_harness(e)
                 return True, f"{kind} raised {type(e).__name__}: {e}"
         return False, "symmetric"
 
@@ -330,6 +333,7 @@ def case_sign(kind, E, N, D):
                 if abs(vz) > 1e-12:
                     return True, f"{kind} = {vz!r} when every member equals the real data"
         except Exception as e:  # noqa: BLE001
+            reraise_if_harness(e)
             return True, f"{kind} raised {type(e).__name__}: {e}"
         return False, "ok"
 
@@ -356,6 +360,7 @@ def case_lengths(D):
                     except ValueError:
                         out = "ValueError"
                     except Exception as e:  # noqa: BLE001
+                        reraise_if_harness(e)
                         out = type(e).__name__
                     exp = "accepted" if L == D else "ValueError"
                     ctx.prove(z3.BoolVal(out == exp), "length_validation", f"{which} of length {L} for {D} coordinates: {out}")
@@ -371,6 +376,7 @@ def case_lengths(D):
                 except ValueError:
                     out = "ValueError"
                 except Exception as e:  # noqa: BLE001
+                    reraise_if_harness(e)
                     out = type(e).__name__
                 if out != ("accepted" if L == D else "ValueError"):
                     return True, f"{which} of length {L} for {D} coordinates: {out}"
